@@ -21,8 +21,8 @@ RULE = (
     "V'_t = a*V_t + b*sum_{k=0}^{T-1-t} beta^k (1e-9 relative to max(1,|V'|); a sub-stream uses models in which last-period states have no feasible choice, so that values of -inf propagate: the pattern of non-finite entries must agree). (b) beta=0: V_t equals the solution of "
     "the ONE-PERIOD model obtained by substituting the literal t for the period in every non-transition function, "
     "for every t. (c) models in which no function mentions the period, horizons T1 < T2: V^{T2}_{T2-k} = "
-    "V^{T1}_{T1-k} for k=1..T1 (1e-12). (d) a stochastic state with one-hot transition rows vs the same model with the "
-    "deterministic table transition argmax(row): equal solutions (1e-12) and equal simulated frames. All comparisons "
+    "V^{T1}_{T1-k} for k=1..T1 (1e-9). (d) a stochastic state with one-hot transition rows vs the same model with the "
+    "deterministic table transition argmax(row): equal solutions (1e-9) and equal simulated frames. All comparisons "
     "are between runs of the real code. Non-trivial: (a) b != 0 and T>=3; (b) T>=2 and some function depends on the "
     "period; (c) T2 >= T1+2; (d) rows select different labels for different dependency values. Distinct by case digest."
 )
@@ -188,7 +188,7 @@ def check(case):
     elif law == "beta0":
         for t in range(T):
             one = lcm_solve(one_period_spec(spec, t))
-            if len(one) != 1 or one[0].shape != base[t].shape or not close(base[t], one[0], 1e-12):
+            if len(one) != 1 or one[0].shape != base[t].shape or not close(base[t], one[0], 1e-9):
                 msgs.append(f"t={t}: with beta=0 the value differs from the one-period problem of period {t}: {base[t].reshape(-1)[:3].tolist()} vs {one[0].reshape(-1)[:3].tolist()}")
         nt = T >= 2 and spec.mentions_period()
     elif law == "horizon":
@@ -198,7 +198,7 @@ def check(case):
         long = lcm_solve(horizon_spec(spec, T2))
         for k in range(1, T + 1):
             A, B = long[T2 - k], base[T - k]
-            if A.shape != B.shape or not close(A, B, 1e-12):
+            if A.shape != B.shape or not close(A, B, 1e-9):
                 msgs.append(f"{k} periods before the end: horizon {T2} gives {A.reshape(-1)[:3].tolist()}, horizon {T} gives {B.reshape(-1)[:3].tolist()}")
         nt = T2 >= T + 2
     else:
@@ -207,7 +207,7 @@ def check(case):
             return Outcome(status="skip", reason="det_" + skip_det, digest=dg)
         sol_det = lcm_solve(spec_det)
         for t in range(T):
-            if base[t].shape != sol_det[t].shape or not close(base[t], sol_det[t], 1e-12):
+            if base[t].shape != sol_det[t].shape or not close(base[t], sol_det[t], 1e-9):
                 msgs.append(f"t={t}: one-hot stochastic transition and deterministic transition give different values")
         if not msgs:
             init = materialise_agents(spec, ref, case["agents"])
@@ -215,7 +215,7 @@ def check(case):
             fb = simcheck.get_functions(spec_det, targets=("solve_and_simulate",))
             dfa = simcheck.simulate(fa, spec, init, case["seed"])
             dfb = simcheck.simulate(fb, spec_det, init, case["seed"])
-            diff = simcheck.frames_equal(dfa, dfb[dfa.columns] if set(dfa.columns) == set(dfb.columns) else dfb)
+            diff = simcheck.frames_equal(dfa, dfb[dfa.columns] if set(dfa.columns) == set(dfb.columns) else dfb, float_tol=1e-9)
             if diff:
                 # accept only genuine ties
                 vfull = simcheck.vfull_list(ref, base)
